@@ -6,7 +6,7 @@ CONSTANTS
   MaxClient = 4
   MaxRestarts = 1
   MaxLog = 14
-  KeyByCtx = FALSE
+  KeyByCtx = TRUE
   OneTerminal = TRUE
   SkipOldCalls = TRUE
   StampCall = TRUE
